@@ -96,7 +96,11 @@ def findImp (A : Aut σ α) (i : Input α) (pre : Option (Prefilter α)) (anch e
 /-- `try_find_fwd`: the prefilter is only used for unanchored searches -/
 def tryFindFwd (A : Aut σ α) (pre : Option (Prefilter α)) (i : Input α) :
     Except MatchErr (Option Mat) :=
-  if i.isDone then .ok Option.none
+  if i.isDone then
+    -- `aut.start_state(input.get_anchored())?; return Ok(None)`: rejection must not depend on the span
+    match A.start i.anch with
+    | Option.none => .error (if i.anch then .invalidInputAnchored else .invalidInputUnanchored)
+    | some _ => .ok Option.none
   else
     let earliest := A.kind == .std || i.earliest
     if i.anch then findImp A i Option.none true earliest
